@@ -9,6 +9,7 @@ import (
 	"sort"
 	"strconv"
 	"strings"
+	"unicode/utf8"
 )
 
 type Kind int
@@ -51,13 +52,14 @@ func M(items map[string]Value) Value { return Value{K: Map, M: items} }
 
 // jsonValue is the serialised form (floats as strings so NaN/Inf survive).
 type jsonValue struct {
-	K string               `json:"k"`
-	B *bool                `json:"b,omitempty"`
-	I *int64               `json:"i,omitempty"`
-	F *string              `json:"f,omitempty"`
-	S *string              `json:"s,omitempty"`
-	L []Value              `json:"l,omitempty"`
-	M map[string]Value     `json:"m,omitempty"`
+	K  string           `json:"k"`
+	B  *bool            `json:"b,omitempty"`
+	I  *int64           `json:"i,omitempty"`
+	F  *string          `json:"f,omitempty"`
+	S  *string          `json:"s,omitempty"`
+	SB []byte           `json:"s_bytes,omitempty"` // string that is not valid UTF-8
+	L  []Value          `json:"l,omitempty"`
+	M  map[string]Value `json:"m,omitempty"`
 }
 
 func (v Value) MarshalJSON() ([]byte, error) {
@@ -71,7 +73,11 @@ func (v Value) MarshalJSON() ([]byte, error) {
 		s := strconv.FormatFloat(v.F, 'g', -1, 64)
 		j.F = &s
 	case String:
-		j.S = &v.S
+		if utf8.ValidString(v.S) {
+			j.S = &v.S
+		} else {
+			j.SB = []byte(v.S)
+		}
 	case List:
 		j.L = v.L
 		if j.L == nil {
@@ -120,6 +126,9 @@ func (v *Value) UnmarshalJSON(b []byte) error {
 		v.K = String
 		if j.S != nil {
 			v.S = *j.S
+		}
+		if j.SB != nil {
+			v.S = string(j.SB)
 		}
 	case "list":
 		v.K = List
